@@ -21,7 +21,7 @@ STEPS = [0, 1, 10**9 - 1, 10**9, 10**9, 10**9 + 1, 2 * 10**9, 3 * 10**9, 5 * 10*
 
 
 def cases(seed, tier):
-    n = 500 if tier == "quick" else 8000
+    n = 800 if tier == "quick" else 8000
     rng = random.Random(seed * 1000003 + 5)
     for i in range(n):
         nrs = rng.choice([1, 1, 2])
@@ -105,7 +105,7 @@ _cases_scripted = cases
 
 def cases(seed, tier):
     yield from _cases_scripted(seed, tier)
-    yield from real_cases(seed, 120 if tier == "quick" else 2000)
+    yield from real_cases(seed, 300 if tier == "quick" else 2000)
 
 
 def judge_real(case, results):
